@@ -21,7 +21,7 @@ PROP = {
                   "regenerated guard-before-use tables: every nil-able field of every zk proof and of every round message content with "
                   "whether its first occurrence is a guard or a use, the guards before Exponent's allocation, and the decode call of both "
                   "handlers; and (C) the malformation stream: real sessions of every protocol, every handler state of the victim (every "
-                  "prefix of its delivery trace), every message still to come, every field path of its CBOR tree x 24 malformations, wrong "
+                  "prefix of its delivery trace), every message still to come, every field path of its CBOR tree x 26 malformations, wrong "
                   "headers, arbitrary byte strings, plus crafted two-message cases, through the real CanAccept/Accept in a supervised "
                   "child process (address-space limit, memory watchdog, per-case timeout).",
     "level_note": "PARTIAL: Go panics, time and allocation are runtime behaviour that the Lean model cannot exhibit; the runtime claim is "
